@@ -45,7 +45,12 @@ MANIFEST = {
                 "gen_append_value(_alias), gen_append_ptr(_alias), gen_resize(_alias), gen_resize_shrink: both fault or both succeed in representing "
                 "states, no foreign allocation touched, fuel size+n suffices); QuickSort::swap / the do-while partition loop / QuickSort::sort of "
                 "List::sort for every heap, element type and comparison (gen_sort_swap, gen_sort_partition, gen_sort, gen_sort_comparator: the "
-                "translated sort terminates, follows no null pointer, writes no link and leaves sortVals lt of the values).  "
+                "translated sort terminates, follows no null pointer, writes no link and leaves sortVals lt of the values); "
+                "Array::append(const Array&) with another array and with the array itself as argument (gen_append_array, gen_append_array_self); "
+                "List::insert(position, list) with the list itself and List::clear for every heap (gen_list_insert_self, gen_list_clear, "
+                "gen_self_insert_every_position; the insert(pos, value) calls inside the loop are the model step Ptr.insert).  The guard and capacity "
+                "rounding of Array::reserve are measured, not translated: every row the probe printed on the current headers is generated into "
+                "SeqConst.lean and reproduced by the model at the generated mask (policy_matches_probe, growth_matches_probe, probe_tables_complete).  "
                 "The models are tied to the current headers on every run: identical "
                 "op lines are executed on the real containers (ASan/UBSan at -O1 and a second unsanitized -O2 build, poisoned "
                 "allocations, white-box node ids of the chain AND of the free list in order, new[]/delete[] counts, forward/backward link walks, "
@@ -58,8 +63,9 @@ MANIFEST = {
                 "right operand of = evaluated first, const T& parameter = pointer; List: Item* = address, null dereference = fault; the block "
                 "allocation of List::insert and the guard + capacity rounding of Array::reserve are NOT translated but replaced by the model's "
                 "refill / growth rule, which are tied by the executed probe); the hand translation of everything that is not translated "
-                "(append(const Array&), copy construction/assignment, find, operator==, Array::swap, removeFront/removeBack wrappers, destructors, "
-                "insert(pos, list) / remove(value) / clear loops of List, the iterator classes, the public List::sort() wrapper [shape-checked]) into "
+                "(Array copy construction/assignment, find, operator==, Array::swap, removeFront/removeBack wrappers, destructors, "
+                "insert(pos, other list) / find / remove(value) / operator== loops of List, PoolList::clear, the iterator classes, the public "
+                "List::sort() wrapper [shape-checked]) into "
                 "the models (validated by the correspondence run, not proved); the models and all theorems are parametric in the rounding mask of Array::reserve (reserve_policy: every mask "
                 "2^j-1) and in the items per block (>= 1) of List and PoolList; the values of the current sources are derived by "
                 "executing a probe built from the current headers (accepted: max(n,capacity)|m for one m = 2^j-1, equidistant block "
